@@ -16,14 +16,16 @@ CHECK_FN = 'MTraj.check_case'
 SHARD_SIZE = 70
 CASE_TIMEOUT = 120
 RULE = ('one evaluation = one case = a batch of runs; a run = a fresh container (Trajectories, or RecordsCamera/Lidar/'
-        'Depth/Gnss/Wifi) driven by a sequence of operations {set pair, set timestamp (dict), delete pair, delete '
+        'Depth/Gnss/Wifi/Bluetooth) driven by a sequence of operations {set pair, set timestamp (dict), delete pair, delete '
         'timestamp, contains timestamp/pair, get pair/timestamp, key_pairs, len, sorted timestamps, timestamp_length, '
         'intermediate_pose, ill-typed calls}, every answer (value or exception class) recorded. Streams: (A) all edit '
         'sequences over 2 timestamps x 2 devices up to the tier length (15 symbols incl. a cache-rebuilding query), each '
         'followed by a query battery (full battery up to length 3 quick / 4 thorough, 5 probing queries at the last '
         'length; thorough adds a 6% sample of length 5), batched by common prefix; the same for RecordsCamera; (B) the '
         'same over 3 timestamps x 2 devices with pair edits only (16 symbols, length 3 quick / 4 thorough); (R) random runs of up to 200 operations over pools of 2..40 timestamps of 1..19 digits (also '
-        'negative, also above sys.maxsize) and 1..4 devices, queries interleaved with edits; (M) ill-typed calls mixed '
+        'negative, also above sys.maxsize) and 1..4 devices, queries interleaved with edits; Records payloads include a '
+        'legal-but-falsy record (empty path, empty RecordWifi()/RecordBluetooth(), all-zero RecordGnss) and records that are '
+        'distinct objects comparing equal, in the enumerated stream (2 extra symbols) and in up to half of the random sets; (M) ill-typed calls mixed '
         'into R. Non-trivial = the case has a run with an edit followed by a query; distinct = distinct batch content.')
 TRUSTED = ['quaternion.slerp / PoseTransform arithmetic inside compute_intermediate_pose: section variable `interp` '
            '(no contract needed: the theorems hold for every function); the harness observes the bracket of an '
@@ -45,7 +47,12 @@ NOTES = []
 T2 = (10, 20)
 T3 = (10, 20, 30)
 DEV = ('a', 'b')
-KINDS = ('traj', 'camera', 'lidar', 'depth', 'gnss', 'wifi')
+KINDS = ('traj', 'camera', 'lidar', 'depth', 'gnss', 'wifi', 'bluetooth')
+# reserved payload ids of the Records runs: one legal-but-falsy record ('' path, empty RecordWifi() / RecordBluetooth():
+# a scan that saw nothing; all-zero RecordGnss), and two ids whose records are re-created on every use, i.e. distinct
+# objects comparing equal.  Membership must depend on keys only, never on the value stored.
+FALSY_PID = 900001
+SHARED_PIDS = (900002, 900003)
 MAP_OPS = ('sp', 'st', 'dp', 'dt', 'ht', 'hp', 'gp', 'gt', 'pairs', 'len', 'bad')
 N_BAD = 18
 
@@ -69,6 +76,11 @@ def _alphabet_a():
     return syms
 
 
+def _alphabet_rec():
+    """The map symbols of alphabet A plus two assignments of the falsy record."""
+    return _alphabet_a()[:-1] + [['spf', T2[0], 'a'], ['spf', T2[1], 'b']]
+
+
 def _alphabet_b():
     syms = []
     for t in T3:
@@ -87,6 +99,8 @@ def _number(seq):
         if s[0] == 'sp':
             n += 1
             out.append(['sp', s[1], s[2], n])
+        elif s[0] == 'spf':
+            out.append(['sp', s[1], s[2], FALSY_PID])
         elif s[0] == 'st':
             items = []
             for d in s[2]:
@@ -117,7 +131,10 @@ def _battery(ts, kind, rot=0, full=True):
             return ips[:3] + [['sorted'], ['pairs']]
         q += ips + [['sorted'], ['tslen']]
     q += [['pairs'], ['len']] + [['ht', t] for t in ts] + [['gt', t] for t in ts]
-    q += [['hp', ts[0], 'a'], ['gp', ts[-1], 'b']]
+    if kind == 'traj':
+        q += [['hp', ts[0], 'a'], ['gp', ts[-1], 'b']]
+    else:
+        q += [['hp', t, d] for t in ts for d in DEV] + [['gp', ts[0], 'a'], ['gp', ts[-1], 'b']]
     return q
 
 
@@ -168,6 +185,17 @@ def _random_run(rng, kind, n_ops, malformed):
     devs = rng.sample(['cam0', 'cam1', 'lidar0', 'réf', 'a b'], rng.choice([1, 2, 2, 3, 4]))
     intervals = [0, 1, gap, 2 * gap, 3 * gap + 1, 10 ** 19, -1, max(1, gap // 2)]
     ops, pid = [], 0
+    special = 0.0 if kind == 'traj' else rng.choice([0.0, 0.25, 0.5])
+
+    def next_pid():
+        nonlocal pid
+        r = rng.random()
+        if r < special * 0.6:
+            return FALSY_PID
+        if r < special:
+            return rng.choice(SHARED_PIDS)
+        pid += 1
+        return pid
     p_edit = rng.choice([0.3, 0.5, 0.7])
     p_del = rng.choice([0.15, 0.3, 0.5])
     for _ in range(n_ops):
@@ -185,12 +213,10 @@ def _random_run(rng, kind, n_ops, malformed):
             elif r < p_del + 0.12:
                 items = []
                 for dd in rng.sample(devs, rng.randint(0, len(devs))):
-                    pid += 1
-                    items.append([dd, pid])
+                    items.append([dd, next_pid()])
                 ops.append(['st', t, items])
             else:
-                pid += 1
-                ops.append(['sp', t, d, pid])
+                ops.append(['sp', t, d, next_pid()])
         else:
             r = rng.random()
             if kind == 'traj' and r < 0.5:
@@ -240,10 +266,14 @@ def gen_cases(rng, tier):
     # (A) exhaustive, 2 timestamps x 2 devices
     if quick:
         _exhaustive(_alphabet_a(), T2, 4, 'traj', cases, 'exhA-traj', light_from=4)
-        _exhaustive(_alphabet_a()[:-1], T2, 3, 'camera', cases, 'exhA-rec')
+        _exhaustive(_alphabet_rec(), T2, 3, 'camera', cases, 'exhA-rec')
+        _exhaustive(_alphabet_rec(), T2, 2, 'wifi', cases, 'exhA-rec-wifi')
+        _exhaustive(_alphabet_rec(), T2, 2, 'bluetooth', cases, 'exhA-rec-bluetooth')
     else:
         _exhaustive(_alphabet_a(), T2, 4, 'traj', cases, 'exhA-traj', light_from=5, extra=(rng, 0.06))
-        _exhaustive(_alphabet_a()[:-1], T2, 4, 'camera', cases, 'exhA-rec')
+        _exhaustive(_alphabet_rec(), T2, 4, 'camera', cases, 'exhA-rec')
+        _exhaustive(_alphabet_rec(), T2, 3, 'wifi', cases, 'exhA-rec-wifi')
+        _exhaustive(_alphabet_rec(), T2, 3, 'bluetooth', cases, 'exhA-rec-bluetooth')
     # (B) exhaustive, 3 timestamps x 2 devices, pair edits
     if quick:
         _exhaustive(_alphabet_b(), T3, 3, 'traj', cases, 'exhB-traj', light_from=3)
@@ -266,7 +296,7 @@ def gen_cases(rng, tier):
                       'tag': 'rand-traj' + ('+bad' if i % 3 == 0 else '')})
     for i in range(60 if quick else 600):
         n_ops = rng.choice([5, 10, 20, 40, 80, 200])
-        kind = KINDS[1 + i % 5]
+        kind = KINDS[1 + i % 6]
         cases.append({'runs': [_random_run(rng, kind, n_ops, malformed=(i % 3 == 0))], 'digits': [],
                       'tag': 'rand-' + kind + ('+bad' if i % 3 == 0 else '')})
     # digit counter samples
@@ -338,7 +368,8 @@ class PlainMap:
 def _new_container(kind):
     import kapture
     return {'traj': kapture.Trajectories, 'camera': kapture.RecordsCamera, 'lidar': kapture.RecordsLidar,
-            'depth': kapture.RecordsDepth, 'gnss': kapture.RecordsGnss, 'wifi': kapture.RecordsWifi}[kind]()
+            'depth': kapture.RecordsDepth, 'gnss': kapture.RecordsGnss, 'wifi': kapture.RecordsWifi,
+            'bluetooth': kapture.RecordsBluetooth}[kind]()
 
 
 def _payload(kind, pid):
@@ -348,12 +379,19 @@ def _payload(kind, pid):
         q = [r.uniform(-1, 1) for _ in range(4)]
         n = sum(x * x for x in q) ** 0.5 or 1.0
         return kapture.PoseTransform(r=[x / n for x in q], t=[pid + r.uniform(-0.25, 0.25), r.uniform(-50, 50), -pid])
+    falsy = pid == FALSY_PID
     if kind in ('camera', 'lidar', 'depth'):
-        return f'{kind}/{pid:06d}.bin'
+        return '' if falsy else f'{kind}/{pid:06d}.bin'
     if kind == 'gnss':
-        return kapture.RecordGnss(float(pid), 2.0, 3.0, pid, 0.5)
+        return kapture.RecordGnss(0.0, 0.0, 0.0, 0, 0.0) if falsy else kapture.RecordGnss(float(pid), 2.0, 3.0, pid, 0.5)
+    if kind == 'bluetooth':
+        b = kapture.RecordBluetooth()
+        if not falsy:
+            b[f'00:1a:7d:da:71:{pid % 100:02d}'] = kapture.RecordBluetoothSignal(rssi=-float(pid % 97), name=f'bt{pid}')
+        return b
     w = kapture.RecordWifi()
-    w[f'68:72:51:80:52:{pid % 100:02d}'] = kapture.RecordWifiSignal(frequency=2400 + pid, rssi=-float(pid))
+    if not falsy:
+        w[f'68:72:51:80:52:{pid % 100:02d}'] = kapture.RecordWifiSignal(frequency=2400 + pid % 97, rssi=-float(pid))
     return w
 
 
@@ -507,8 +545,11 @@ def _run_ops(run, rec):
     plain = PlainMap()             # only used to build the comparison container for timestamp_length
     outs, fresh = [], {}
 
+    alive = []                     # every payload object stays alive, so that id() values are never reused
+
     def mk(pid):
         o = _payload(kind, pid)
+        alive.append(o)
         objs[pid] = o
         by_identity[id(o)] = pid
         return o
